@@ -125,6 +125,9 @@ fn main() {
                     }
                     "c16" => {
                         let reps = std::cmp::max(1, n / 100);
+                        for k in 0..reps * 30 {
+                            cases.push(g::gen_fold_repeat(&mut rng, k));
+                        }
                         for _ in 0..reps {
                             for raw in g::smuggle_variants() {
                                 for pos in 0..3 {
